@@ -823,7 +823,7 @@ func c17Stress(c *mon.Ctx, r *mon.Rand) {
 		emu.Unlock()
 	}})
 	so := tprom.DefaultSanitizerOpts
-	prof := mon.RandomProfile(r, []int{tally.VerifCtrBeforeAdd, tally.VerifCtrLoaded1, tally.VerifRegScopeReported, tally.VerifGaugeBetweenStores}, r.Intn(3))
+	prof := mon.RandomProfile(r, []int{tally.VerifCtrBeforeAdd, tally.VerifCtrLoaded1, tally.VerifRegScopeReported, tally.VerifGaugeBetweenStores, tally.VerifGaugeSwapped}, r.Intn(3))
 	prof.Prob[tally.VerifCtrBeforeAdd] = r.Range(50, 400)
 	inj := mon.NewDelayInjector(r.U64(), prof, false)
 	inj.Install()
@@ -838,6 +838,7 @@ func c17Stress(c *mon.Ctx, r *mon.Rand) {
 	defer stopW()
 	hsum := make([][]int64, W)
 	csum := make([]int64, W)
+	glast := make([]float64, W)
 	var wg, wgP sync.WaitGroup
 	var stop int32
 	for w := 0; w < W; w++ {
@@ -848,6 +849,7 @@ func c17Stress(c *mon.Ctx, r *mon.Rand) {
 			defer wg.Done()
 			sc := root.Tagged(map[string]string{"w": fmt.Sprint(w)})
 			ctr := sc.Counter("sc")
+			gg := sc.Gauge("sg")
 			hs := make([]tally.Histogram, nH)
 			for k := range hs {
 				hs[k] = sc.Histogram(fmt.Sprintf("sh%d", k), tally.ValueBuckets{1, 2})
@@ -855,6 +857,10 @@ func c17Stress(c *mon.Ctx, r *mon.Rand) {
 			for i := 0; i < iters; i++ {
 				ctr.Inc(1)
 				csum[w]++
+				if i%3 == 0 {
+					glast[w] = float64(i + 1)
+					gg.Update(glast[w])
+				}
 				if i%4 == 0 {
 					k := wr.Intn(nH)
 					hs[k].RecordValue(1.5)
@@ -885,6 +891,7 @@ func c17Stress(c *mon.Ctx, r *mon.Rand) {
 	}
 	gotC := map[string]float64{}
 	gotH := map[string]uint64{}
+	gotG := map[string]float64{}
 	for _, f := range fams {
 		for _, m := range f.GetMetric() {
 			k := f.GetName() + "|" + labelsOf(m)["w"]
@@ -894,11 +901,17 @@ func c17Stress(c *mon.Ctx, r *mon.Rand) {
 			if m.GetHistogram() != nil {
 				gotH[k] = m.GetHistogram().GetSampleCount()
 			}
+			if m.GetGauge() != nil {
+				gotG[k] = m.GetGauge().GetValue()
+			}
 		}
 	}
 	for w := 0; w < W; w++ {
 		if got := gotC["sc|"+fmt.Sprint(w)]; got != float64(csum[w]) {
 			c.Violation("prometheus-value/counter", map[string]interface{}{"why": fmt.Sprintf("counter sc{w=%d} shows %v after the final pass, %d recorded", w, got, csum[w]), "case": desc})
+		}
+		if got := gotG["sg|"+fmt.Sprint(w)]; got != glast[w] {
+			c.Violation("prometheus-value/gauge", map[string]interface{}{"why": fmt.Sprintf("gauge sg{w=%d} shows %v after the final pass, the last update was %v (passes ran next to the updates)", w, got, glast[w]), "case": desc})
 		}
 		for k := 0; k < nH; k++ {
 			if got := gotH[fmt.Sprintf("sh%d|%d", k, w)]; got != uint64(hsum[w][k]) {
